@@ -43,7 +43,7 @@ func runComponentTCP(args []string) []string {
 		return []string{"bad-op"}
 	}
 	var payload []byte
-	if args[1] != "none" && args[1] != "idle" {
+	if args[1] != "none" && args[1] != "idle" && args[1] != "idle0" {
 		payload = core.MustUnHex(args[1])
 	}
 	for try := 0; try < 10; try++ {
@@ -72,6 +72,12 @@ func runComponentTCPOnce(k int, kind string, payload []byte) []string {
 		}
 	}
 	before := reputil.JoinDump(w.Dump())
+	// `idle0`: an idle client of a browser configured with a client timeout of 0 (a legal duration): the deadline the
+	// TCP server arms has passed at once, the connection is closed without a reply — it is not kept for ever
+	timeout := clientTimeout
+	if kind == "idle0" {
+		timeout = 0
+	}
 	l, err := net.ListenTCP("tcp4", &net.TCPAddr{IP: net.IPv4(127, 0, 0, 1)})
 	if err != nil {
 		return []string{"infra:port"}
@@ -80,7 +86,7 @@ func runComponentTCPOnce(k int, kind string, payload []byte) []string {
 	l.Close()
 	app := fx.New(
 		fx.NopLogger,
-		fx.Supply(browserc.Config{ListenAddr: "127.0.0.1:" + strconv.Itoa(port), ClientTimeout: clientTimeout}),
+		fx.Supply(browserc.Config{ListenAddr: "127.0.0.1:" + strconv.Itoa(port), ClientTimeout: timeout}),
 		fx.Supply(settings.Settings{ServerLiveness: w.Opts.Liveness}),
 		fx.Provide(
 			func() *zerolog.Logger { return p.Logger },
